@@ -130,14 +130,14 @@ Qed.
 (* finish_module succeeds exactly on a balanced module *)
 Theorem build_needs_balance m fp : (exists r, step m (AddLocal SF fp) = Ok r) <-> behind m 0.
 Proof.
-  unfold behind. cbn [step]. rewrite lenN_app. cbn [s_nlocal s_num s_items].
+  unfold behind. cbn [step s_items s_nlocal s_num]. rewrite lenN_app.
   destruct (N.eqb_spec (lenN (s_items (m_f m)) + 1) (s_nlocal (m_f m) + 1 + s_num (m_f m))) as [E|E].
   - split; [intros _; lia | intros _; eexists; reflexivity].
   - split; [intros [r H]; discriminate | intros H; exfalso; apply E; lia].
 Qed.
 Theorem unbalanced_build_panics m fp k : behind m k -> 0 < k -> step m (AddLocal SF fp) = Panic 2.
 Proof.
-  unfold behind. intros H Hk. cbn [step]. rewrite lenN_app. cbn [s_nlocal s_num s_items].
+  unfold behind. intros H Hk. cbn [step s_items s_nlocal s_num]. rewrite lenN_app.
   destruct (N.eqb_spec (lenN (s_items (m_f m)) + 1) (s_nlocal (m_f m) + 1 + s_num (m_f m))) as [E|E]; [lia|reflexivity].
 Qed.
 
@@ -208,7 +208,7 @@ Proof.
   intros Hb Hn Hl H1 Hrun. cbn [bstep] in H1.
   destruct (step (b_m s) (LocalToImport id fpi)) as [[m r']|] eqn:E; [|discriminate]. inversion H1; subst; clear H1.
   pose proof (step_behind _ _ _ _ _ Hb E) as P. cbn in P. rewrite Hn in P. unfold is_import in P. rewrite Hl in P. cbn in P.
-  destruct (brun_behind _ _ _ _ _ 1 P ltac:(lia) Hrun) as (k' & Hb' & Hk').
+  destruct (brun_behind h (mkB m (b_ts s) (b_fpay s)) rets s2 rets2 1 P ltac:(lia) Hrun) as (k' & Hb' & Hk').
   cbn [bstep]. destruct (add_type _ _). rewrite (unbalanced_build_panics _ fp k' Hb' Hk'). reflexivity.
 Qed.
 
@@ -272,9 +272,9 @@ Proof.
   intros H. inversion H; subst; clear H. cbn [bo_funcs]. exists lf, mf. split; [reflexivity|]. cbn zeta.
   split; [rewrite (rmapb_length _ _ _ F), numberN_length; reflexivity|].
   intros k it Hn. destruct (rmapb_nth _ _ _ _ _ F (numberN_nth _ 0 _ _ Hn)) as (y & Hy & Ey).
-  unfold emit_func in Ey. destruct (plook (b_fpay s) (it_fp it)) as [p|]; [|discriminate].
-  destruct (nth_error (ts_types (b_ts s)) (N.to_nat (fp_tid p))) as [ty|]; [|discriminate]. inversion Ey; subst.
-  eexists p, ty, _. repeat split. exact Hy.
+  unfold emit_func in Ey. destruct (plook (b_fpay s) (it_fp it)) as [p|] eqn:Ep; [|discriminate].
+  destruct (nth_error (ts_types (b_ts s)) (N.to_nat (fp_tid p))) as [ty|] eqn:Et; [|discriminate]. inversion Ey; subst y.
+  eexists p, ty, _. split; [reflexivity|]. split; [exact Et|exact Hy].
 Qed.
 
 (* end to end on the model, for every history: a function built at any point of a history that does not reuse its
